@@ -15,7 +15,7 @@
    C11-F3 is fixed) and REFUTED for Badger and TiKV by the two open deviations recorded in known_findings.d/C11.json,
    for which the complement is proved. *)
 From KB Require Import Base.Cases Model.Store Model.Adapters Model.C11Cases
-  Proofs.Store Proofs.StoreSpec Proofs.AdapterLists Proofs.Adapters Proofs.C11Cases Proofs.C11TwoBatches Proofs.C11Kinds Proofs.C11Exact.
+  Proofs.Store Proofs.StoreSpec Proofs.AdapterLists Proofs.Adapters Proofs.C11Cases Proofs.C11TwoBatches Proofs.C11Kinds Proofs.C11Exact Model.C11Wrap Proofs.C11Wrap.
 Local Open Scope N_scope.
 
 (* ---- the contract's ordered map ---- *)
@@ -332,6 +332,75 @@ Print Assumptions C11_cleanb_sound.
 Theorem C11_oracle_sound_checked : forall c, c11_cleanb c = true -> c11_check c = true -> c11_oracle c = None.
 Proof. exact c11_oracle_sound_checked. Qed.
 Print Assumptions C11_oracle_sound_checked.
+
+(* ---- the metrics decorator as a program of its own (Model/C11Wrap.v: forwarding calls, wrapped iterators, emission
+   log) — unlike `wrapper`, which is a record copy ---- *)
+
+(* invisible: on every adapter, from every state in which the decorator holds a wrapped iterator exactly when the
+   caller holds an item, every operation sequence reaches the decorated adapter as the same calls and is answered
+   with the same answers as on the bare adapter *)
+Theorem C11_decorator_transparent : forall A ops (w : wstate A), hinv w ->
+  a_run A (w_in w) (w_held w) ops = (w_in (fst (w_run A w ops)), map fst (snd (w_run A w ops))).
+Proof. exact w_run_transparent. Qed.
+Print Assumptions C11_decorator_transparent.
+
+(* truthful: in every run the state tags emitted for a call are the tag of the answer the caller received, a batch
+   reports the number of operations staged, and a call that panicked left no emission *)
+Theorem C11_decorator_truthful : forall A ops (w : wstate A),
+  forallb truthful_step (combine ops (snd (w_run A w ops))) = true.
+Proof. exact w_run_truthful. Qed.
+Print Assumptions C11_decorator_truthful.
+
+(* ... and through the refinement, the tag is the contract's verdict: state=success exactly for a batch the contract
+   applies, state=cas_failed exactly for one it refuses *)
+Theorem C11_decorator_batch_tag_is_verdict : forall A m (S : sim A m) s c ops l,
+  sim_R A m S s c -> okb A m S ops ->
+  match batch_eval m c ops with
+  | Applied _ => batch_emissions l (snd (fst (a_batch A s ops))) = [EBatchCount (N.of_nat l) TSuccess; EBatchDur TSuccess]
+  | CondFailed _ _ => batch_emissions l (snd (fst (a_batch A s ops))) = [EBatchCount (N.of_nat l) TCasFailed; EBatchDur TCasFailed]
+  end.
+Proof. exact batch_emission_truthful. Qed.
+Print Assumptions C11_decorator_batch_tag_is_verdict.
+
+(* the shards evaluate c11x_check / c11x_oracle: an ordinary case is judged as before, a checked KWrapMetrics case is
+   a checked ordinary case of the decorated engine.  The emission log is compared separately (c11x_emissions_check;
+   C11 does not speak about metrics, a disagreement there is reported, not an alarm): a case whose log the model
+   reproduces has truthful emissions *)
+Theorem C11_decorator_case_is_bare_case : forall e steps final,
+  c11x_check (KWrapMetrics e steps final) = true -> c11_check (mk_c11 e (bare steps) final) = true.
+Proof. exact wrap_check_bare. Qed.
+Print Assumptions C11_decorator_case_is_bare_case.
+
+Theorem C11_decorator_case_truthful : forall e steps final,
+  c11x_emissions_check (KWrapMetrics e steps final) = true -> forallb truthful_step steps = true.
+Proof. exact wrap_emissions_truthful. Qed.
+Print Assumptions C11_decorator_case_truthful.
+
+Theorem C11x_oracle_sound_checked : forall c, c11x_cleanb c = true -> c11x_check c = true -> c11x_oracle c = None.
+Proof. exact c11x_oracle_sound_checked. Qed.
+Print Assumptions C11x_oracle_sound_checked.
+
+(* non-vacuity: a run with a held wrapped iterator, a refused batch, a compare-and-delete, a missing key and an
+   iterator replaced while held; its emissions *)
+Definition ex_wops : list sop :=
+  [SBatch [BPut [98] [49] 0; BPut [100] [50] 0];
+   SHold [97] [122] 0 0;
+   SBatch [BCAS [120] [50] [49] 0];
+   SDelCur;
+   SGet [98];
+   SHold [97] [122] 2 5;
+   SIter [97] [122] 1].
+Example C11_ex_decorator :
+  map snd (snd (w_run memkv (w_init memkv) ex_wops)) =
+  [ [EBatchCount 2 TSuccess; EBatchDur TSuccess];
+    [EIterStart TSuccess; EIterOpened false];
+    [EBatchCount 1 TCasFailed; EBatchDur TCasFailed];
+    [EOp WCmpDel TSuccess];
+    [EOp WGet TNotFound];
+    [EIterFetched 0 false; EIterAvg false; EIterSum false; EIterStart TSuccess; EIterOpened true;
+     EIterFetched 1 true; EIterAvg true; EIterSum true];
+    [EIterStart TSuccess; EIterOpened true; EIterFetched 1 true; EIterAvg true; EIterSum true] ].
+Proof. vm_compute. reflexivity. Qed.
 
 (* ---- non-vacuity ---- *)
 
